@@ -379,6 +379,18 @@ class KeydownSkillTrait(
             ],
         )
 
+    def validity_in_keydown_trait(
+        self, state: CooldownDynamicsKeydownProtocol
+    ) -> Validity:
+        """use_keydown_trait rejects while the keydown is running, so it is not valid then."""
+        return Validity(
+            id=self._get_id(),
+            name=self._get_name(),
+            time_left=state.cooldown.minimum_time_to_available(),
+            valid=state.cooldown.available and not state.keydown.running,
+            cooldown_duration=self._get_cooldown_duration(),
+        )
+
     def keydown_view_in_keydown_trait(self, state: CooldownDynamicsKeydownProtocol):
         return KeydownView(
             name=self._get_name(),
